@@ -48,6 +48,7 @@ type Scenario struct {
 	DelayMs    int              `json:"delay_ms,omitempty"`
 	TimeoutMs  int              `json:"read_timeout_ms"`
 	ConsumerMs int              `json:"consumer_ms,omitempty"` // the application spends this long on every envelope before it takes the next one off the channel
+	EmptyKeys  bool             `json:"empty_keys,omitempty"`  // the receiver has TSIG switched on (a non-nil secret map) but holds no key: no envelope can verify
 	Dial       string           `json:"dial,omitempty"`        // "" a preset connection | ok | refused : Transfer.In makes the connection itself (socket seam of the instrumented build; a preset connection elsewhere)
 	OutPaceMs  int              `json:"out_pace_ms,omitempty"` // sender "out": the application hands Transfer.Out one envelope every so often; with a fudge of 5 s the whole transfer takes longer than the fudge
 	PaceMs     int              `json:"pace_ms,omitempty"`     // scripted sender: pause between envelopes (shorter than the read timeout; the whole transfer may take much longer than it)
@@ -113,6 +114,11 @@ func Gen(seed uint64, tier string) any {
 		}
 		sc.ClientKey, sc.ServerKey = true, true
 		sc.Fudge = core.Pick(r, 300, 300, 5, 1)
+	}
+	if sc.Alg == "" && core.Chance(r, 6) {
+		sc.EmptyKeys = true
+	} else if sc.Alg != "" && core.Chance(r, 5) {
+		sc.EmptyKeys, sc.ClientKey = true, false
 	}
 	sc.SegMode = r.IntN(3)
 	sc.ShortRead = core.Pick(r, 0, 40, 90)
@@ -499,6 +505,10 @@ func (c *clientTask) RunEvent(time.Time) {
 	if sc.Alg != "" && sc.ClientKey {
 		t.TsigSecret = secrets()
 		q.SetTsig(keyName, sc.Alg, uint16(sc.Fudge), time.Now().Unix())
+	}
+	if sc.EmptyKeys && t.TsigSecret == nil {
+		t.TsigSecret = map[string]string{}
+		x.res.Bump("fault.receiver_with_empty_secret_map")
 	}
 	env, err := t.In(q, "10.0.0.1:53")
 	if dialling {
@@ -939,7 +949,11 @@ func (x *run) judge(start0 time.Time) {
 			}
 		}
 	}
-	clientTSIG := sc.Alg != "" && sc.ClientKey
+	clientTSIG := (sc.Alg != "" && sc.ClientKey) || sc.EmptyKeys
+	recvSecrets := secrets()
+	if sc.EmptyKeys && !(sc.Alg != "" && sc.ClientKey) {
+		recvSecrets = map[string]string{}
+	}
 	// sender side: what Transfer.Out put on the wire is an RFC-valid chain
 	if sc.Sender == "out" && sc.Alg != "" && sc.ServerKey && sc.ClientKey && len(x.relay.In["c2s"]) > 0 {
 		if qt, _, ok := oracle.FindTSIG(x.relay.In["c2s"][0]); ok {
@@ -1021,7 +1035,7 @@ func (x *run) judge(start0 time.Time) {
 					}
 				}
 			}
-			v := oracle.VerifyTSIG(f, secrets(), prior, i > 0, now)
+			v := oracle.VerifyTSIG(f, recvSecrets, prior, i > 0, now)
 			if !v.Judgable {
 				judgable = false
 			}
